@@ -496,8 +496,18 @@ func (o *oracle) leakDemanded(a *allocT) bool {
 		}
 		return !w.viewJustifies(v, a)
 	case ownTunnel:
+		// A node's tunnel address goes only together with the node: the node is gone (Kubernetes and Calico
+		// objects) and nothing else on it still counts as in use.
 		n := a.owner.node
-		return !n.alive && !n.calicoPresent
+		if n.alive || n.calicoPresent {
+			return false
+		}
+		for _, id := range sortedKeys(o.allocs) {
+			if b := o.allocs[id]; b != a && b.node == a.node && b.owner.kind == ownPod && !o.leakDemanded(b) {
+				return false
+			}
+		}
+		return true
 	}
 	return false
 }
